@@ -67,6 +67,146 @@ impl Seek for SharedFile {
     }
 }
 
+
+// ------------------------------------------------------------------ byte sources and sinks
+// How the bytes travel between the library and the file is a dimension of the recordings (`src` of the `new`
+// act): 0 plain in-memory file; 1 one byte per read / write call; 2 half of what is asked for (rounded up);
+// 3 all but the last byte; 4 std BufReader / BufWriter with a 16-byte buffer (what tools/ uses, small);
+// 5 pseudo-random counts; 6 BufReader / BufWriter with a 1-byte buffer.  A count of zero is only ever
+// returned at the end of the file.  The logical position (bytes handed over) is tracked here because the
+// library owns the wrapped object.
+#[derive(Clone)]
+struct IoPos(Rc<std::cell::Cell<u64>>);
+impl IoPos {
+    fn new() -> IoPos {
+        IoPos(Rc::new(std::cell::Cell::new(0)))
+    }
+    fn get(&self) -> usize {
+        self.0.get() as usize
+    }
+}
+fn frag_count(pol: u64, want: usize, state: &mut u64) -> usize {
+    if want <= 1 {
+        return want;
+    }
+    match pol {
+        1 => 1,
+        2 => (want + 1) / 2,
+        3 => want - 1,
+        5 => {
+            *state ^= *state << 13;
+            *state ^= *state >> 7;
+            *state ^= *state << 17;
+            1 + (*state >> 33) as usize % want
+        }
+        _ => want,
+    }
+}
+enum SrcInner {
+    Plain(SharedFile),
+    Buf(io::BufReader<SharedFile>),
+}
+struct Source {
+    inner: SrcInner,
+    pol: u64,
+    state: u64,
+    pos: IoPos,
+    barrier: u64, // policy 7: no read crosses this byte offset
+}
+impl Source {
+    fn with_barrier(f: SharedFile, barrier: u64, pos: IoPos) -> Source {
+        let mut s = Source::new(f, 7, pos);
+        s.barrier = barrier;
+        s
+    }
+    fn new(f: SharedFile, pol: u64, pos: IoPos) -> Source {
+        let inner = match pol {
+            4 => SrcInner::Buf(io::BufReader::with_capacity(16, f)),
+            6 => SrcInner::Buf(io::BufReader::with_capacity(1, f)),
+            _ => SrcInner::Plain(f),
+        };
+        Source { inner, pol, state: 0x9E37_79B9_7F4A_7C15 ^ pol, pos, barrier: 0 }
+    }
+}
+impl Read for Source {
+    fn read(&mut self, b: &mut [u8]) -> io::Result<usize> {
+        let n = match &mut self.inner {
+            SrcInner::Plain(f) => {
+                let mut k = frag_count(self.pol, b.len(), &mut self.state);
+                if self.pol == 7 {
+                    let cur = f.pos() as u64;
+                    if cur < self.barrier && cur + k as u64 > self.barrier {
+                        k = (self.barrier - cur) as usize;
+                    }
+                }
+                f.read(&mut b[..k])?
+            }
+            SrcInner::Buf(r) => r.read(b)?,
+        };
+        self.pos.0.set(self.pos.0.get() + n as u64);
+        Ok(n)
+    }
+}
+impl Seek for Source {
+    fn seek(&mut self, p: SeekFrom) -> io::Result<u64> {
+        let r = match &mut self.inner {
+            SrcInner::Plain(f) => f.seek(p)?,
+            SrcInner::Buf(r) => r.seek(p)?,
+        };
+        self.pos.0.set(r);
+        Ok(r)
+    }
+}
+enum SinkInner {
+    Plain(SharedFile),
+    Buf(io::BufWriter<SharedFile>),
+}
+struct Sink {
+    inner: SinkInner,
+    pol: u64,
+    state: u64,
+    pos: IoPos,
+}
+impl Sink {
+    fn new(f: SharedFile, pol: u64, pos: IoPos) -> Sink {
+        let inner = match pol {
+            4 => SinkInner::Buf(io::BufWriter::with_capacity(16, f)),
+            6 => SinkInner::Buf(io::BufWriter::with_capacity(1, f)),
+            _ => SinkInner::Plain(f),
+        };
+        Sink { inner, pol, state: 0x1234_5678_9ABC_DEF1 ^ pol, pos }
+    }
+}
+impl Write for Sink {
+    fn write(&mut self, b: &[u8]) -> io::Result<usize> {
+        let n = match &mut self.inner {
+            SinkInner::Plain(f) => {
+                let k = frag_count(self.pol, b.len(), &mut self.state);
+                f.write(&b[..k])?
+            }
+            SinkInner::Buf(w) => w.write(b)?,
+        };
+        self.pos.0.set(self.pos.0.get() + n as u64);
+        Ok(n)
+    }
+    fn flush(&mut self) -> io::Result<()> {
+        match &mut self.inner {
+            SinkInner::Plain(_) => Ok(()),
+            SinkInner::Buf(w) => w.flush(),
+        }
+    }
+}
+impl Seek for Sink {
+    fn seek(&mut self, p: SeekFrom) -> io::Result<u64> {
+        let r = match &mut self.inner {
+            SinkInner::Plain(f) => f.seek(p)?,
+            SinkInner::Buf(w) => w.seek(p)?,
+        };
+        self.pos.0.set(r);
+        Ok(r)
+    }
+}
+
 thread_local! {
     static PANIC_LOC: RefCell<String> = RefCell::new(String::new());
 }
@@ -392,9 +532,11 @@ fn exec_lo(plan: &[Value], ps: &mut Payloads) -> Vec<Value> {
         return outs;
     }
     let h = lo_header(&plan[0]);
+    let pol = plan[0]["src"].as_u64().unwrap_or(0);
     let file = SharedFile::new(Vec::new());
+    let wpos = IoPos::new();
     let w = catch_unwind(AssertUnwindSafe(|| {
-        Writer::new(file.clone(), &h.nv, &h.mn, h.sha, h.crc, h.kind, h.length, &h.ts, &h.map)
+        Writer::new(Sink::new(file.clone(), pol, wpos.clone()), &h.nv, &h.mn, h.sha, h.crc, h.kind, h.length, &h.ts, &h.map)
     }));
     let mut writer = match w {
         Ok(Ok(w)) => w,
@@ -407,7 +549,7 @@ fn exec_lo(plan: &[Value], ps: &mut Payloads) -> Vec<Value> {
             return outs;
         }
     };
-    let dataoff = file.len();
+    let dataoff = wpos.get();
     // segments written per chunk act
     struct Seg {
         start: usize,
@@ -417,28 +559,46 @@ fn exec_lo(plan: &[Value], ps: &mut Payloads) -> Vec<Value> {
     let mut segs: Vec<Seg> = Vec::new();
     let mut failed: Option<Value> = None;
     for a in &plan[1..] {
-        let start = file.len();
+        let start = wpos.get();
         let mut payload = None;
+        // the entry point: the dedicated function, or the generic write_chunk with the RawChunk variant
+        let generic = a["via"].as_str().unwrap_or("fn") == "chunk";
         let r = match a["a"].as_str().unwrap_or("") {
             "tick" => {
                 let t = a["t"].as_i64().unwrap_or(0) as i32;
                 let kf = a["kf"].as_bool().unwrap_or(false);
-                catch_unwind(AssertUnwindSafe(|| writer.write_tick(kf, t)))
+                if generic {
+                    catch_unwind(AssertUnwindSafe(|| writer.write_chunk(RawChunk::Tick { tick: t, keyframe: kf })))
+                } else {
+                    catch_unwind(AssertUnwindSafe(|| writer.write_tick(kf, t)))
+                }
             }
             "data" => {
                 let kind = a["kind"].as_str().unwrap_or("");
                 let p = ps.for_act(a).unwrap_or_else(|| panic!("harness: no payload for {}", a));
                 payload = Some(p.clone());
-                catch_unwind(AssertUnwindSafe(|| match kind {
-                    "snapshot" => writer.write_snapshot(&p.raw),
-                    "delta" => writer.write_snapshot_delta(&p.raw),
-                    _ => writer.write_message(&p.raw),
-                }))
+                if generic {
+                    let mut av: Box<arrayvec::ArrayVec<[u8; 65536]>> = Box::new(arrayvec::ArrayVec::new());
+                    if kind != "message" {
+                        av.try_extend_from_slice(&p.raw).expect("harness: snapshot payload fits 64 KiB");
+                    }
+                    catch_unwind(AssertUnwindSafe(|| match kind {
+                        "snapshot" => writer.write_chunk(RawChunk::Snapshot(&av)),
+                        "delta" => writer.write_chunk(RawChunk::SnapshotDelta(&av)),
+                        _ => writer.write_chunk(RawChunk::Message(&p.raw)),
+                    }))
+                } else {
+                    catch_unwind(AssertUnwindSafe(|| match kind {
+                        "snapshot" => writer.write_snapshot(&p.raw),
+                        "delta" => writer.write_snapshot_delta(&p.raw),
+                        _ => writer.write_message(&p.raw),
+                    }))
+                }
             }
             other => panic!("harness: unknown low-level act {}", other),
         };
         match r {
-            Ok(Ok(())) => segs.push(Seg { start, end: file.len(), payload }),
+            Ok(Ok(())) => segs.push(Seg { start, end: wpos.get(), payload }),
             Ok(Err(e)) => {
                 failed = Some(json!({"r":"err","e":variant_name(&e)}));
                 break;
@@ -453,8 +613,9 @@ fn exec_lo(plan: &[Value], ps: &mut Payloads) -> Vec<Value> {
     let bytes = file.contents();
     // read back
     let rfile = SharedFile::new(bytes.clone());
+    let rpos = IoPos::new();
     let mut warns: Vec<libtw2_demo::Warning> = Vec::new();
-    let rd = catch_unwind(AssertUnwindSafe(|| Reader::new(rfile.clone(), &mut warns)));
+    let rd = catch_unwind(AssertUnwindSafe(|| Reader::new(Source::new(rfile.clone(), pol, rpos.clone()), &mut warns)));
     let mut reader = match rd {
         Ok(Ok(r)) => Some(r),
         Ok(Err(e)) => {
@@ -477,7 +638,7 @@ fn exec_lo(plan: &[Value], ps: &mut Payloads) -> Vec<Value> {
             && r.map_crc() == h.crc
             && r.length() == h.length
             && r.timeline_markers().is_empty()
-            && rfile.pos() == dataoff;
+            && rpos.get() == dataoff;
         outs.push(json!({"r":"ok","version":r.version() as u8,"dataoff":dataoff,"same":same,"w":warn_names(&warns)}));
     }
     let mut dead: Option<String> = None;
@@ -516,7 +677,7 @@ fn exec_lo(plan: &[Value], ps: &mut Payloads) -> Vec<Value> {
             }));
             match res {
                 Ok(Ok(Some(c))) => {
-                    let at_end = rfile.pos() == s.end;
+                    let at_end = rpos.get() == s.end;
                     o["err"] = json!(if at_end { "none" } else { "Desync" });
                     o["chunk"] = c;
                 }
@@ -1150,6 +1311,325 @@ fn cmd_graph(level: &str, args: &[String]) {
     println!("{}", summary);
 }
 
+
+// ------------------------------------------------------------------ payload library for DemoFile.tla
+
+/// stdin: one JSON object per line: {"name":..,"raw":[..]} (bytes handed to Huffman), {"name":..,"msg":[..]} (message bytes:
+/// packed in 4-byte groups, then Huffman) or {"name":..,"comp":[..]} (compressed bytes as found in a file).
+/// stdout: per line the compressed bytes, what they decompress to and what the message unpacking makes of that --
+/// computed with the huffman / packer crates only (not with the demo crate).
+fn cmd_lib() {
+    let stdin = io::stdin();
+    for line in stdin.lock().lines() {
+        let line = match line { Ok(l) => l, Err(_) => break };
+        if line.trim().is_empty() { continue; }
+        let v: Value = serde_json::from_str(&line).expect("lib json");
+        let comp: Vec<u8> = if v.get("comp").is_some() {
+            bytes_of(&v["comp"])
+        } else if v.get("msg").is_some() {
+            HUFFMAN.compress_into_vec(&msg_prep(&bytes_of(&v["msg"])).expect("packable"))
+        } else if let Some(n) = v.get("csize").and_then(|x| x.as_u64()) {
+            find_payload("snapshot", n as usize, 0).map(|p| p.comp.clone()).unwrap_or_default()
+        } else {
+            HUFFMAN.compress_into_vec(&bytes_of(&v["raw"]))
+        };
+        let mut out: Vec<u8> = Vec::with_capacity(65536);
+        let (hok, raw) = match HUFFMAN.decompress(&comp, &mut out) {
+            Ok(_) => (true, out.clone()),
+            Err(_) => (false, Vec::new()),
+        };
+        // message unpacking as documented: variable-length integers -> 4-byte little-endian groups
+        let mut mok = "ok";
+        let mut msg: Vec<u8> = Vec::new();
+        let mut mw: Vec<libtw2_packer::Warning> = Vec::new();
+        if hok {
+            let mut u = libtw2_packer::Unpacker::new(&raw);
+            while !u.is_empty() {
+                match u.read_int(&mut mw) {
+                    Ok(n) => {
+                        if msg.len() + 4 > 65536 { mok = "MessageVarIntTooLong"; break; }
+                        msg.extend_from_slice(&n.to_le_bytes());
+                    }
+                    Err(_) => { mok = "MessageVarIntUnexpectedEnd"; break; }
+                }
+            }
+        }
+        println!("{}", json!({"name": v["name"], "comp": comp, "hok": hok, "raw": raw, "mok": mok, "msg": if mok == "ok" { msg } else { Vec::new() },
+            "mw": warn_names(&mw)}));
+    }
+}
+
+
+// ------------------------------------------------------------------ file level (DemoFile.tla)
+
+fn read_error_class(e: &libtw2_demo::ReadError) -> String {
+    use libtw2_demo::ReadError as E;
+    match e {
+        E::Io(io) => if io.kind() == io::ErrorKind::UnexpectedEof { "eof".to_string() } else { "io".to_string() },
+        E::Binrw(b) => if b.is_eof() { "eof".to_string() } else { "bad".to_string() },
+        other => variant_name(other),
+    }
+}
+fn be4(x: u32) -> Vec<u8> {
+    x.to_be_bytes().to_vec()
+}
+
+/// Reads `bytes` with the real Reader through the given source; everything it reports, in the vocabulary of
+/// DemoFile!ReadFile. `typed`: how far DemoReader gets on the same bytes (only "ok" / "err" / "panic" / "hang").
+fn read_file(bytes: &[u8], pol: u64, barrier: u64) -> Value {
+    let rfile = SharedFile::new(bytes.to_vec());
+    let rpos = IoPos::new();
+    let mut warns: Vec<libtw2_demo::Warning> = Vec::new();
+    let src = if pol == 7 { Source::with_barrier(rfile.clone(), barrier, rpos.clone()) } else { Source::new(rfile.clone(), pol, rpos.clone()) };
+    let rd = catch_unwind(AssertUnwindSafe(|| Reader::new(src, &mut warns)));
+    let mut out = json!({"r":"ok"});
+    let mut reader = match rd {
+        Ok(Ok(r)) => {
+            out["hdr"] = json!({"ok": true, "err": "none", "off": rpos.get(), "w": warn_names(&warns), "io": false,
+                "h": {"version": r.version() as u8, "nv": r.net_version(), "mn": r.map_name(), "ts": r.timestamp(),
+                      "mapsize": r.map_size(), "crc": be4(r.map_crc()), "kind": kind_name(r.kind()), "length": r.length(),
+                      "marks": r.timeline_markers(), "sha": r.map_sha256().map(|s| s.0.to_vec()).unwrap_or_default(),
+                      "map": r.map_data()}});
+            Some(r)
+        }
+        Ok(Err(e)) => {
+            let class = read_error_class(&e);
+            let io = e.io_error().is_ok();
+            out["hdr"] = json!({"ok": false, "err": class, "off": 0, "w": [], "io": io, "h": {"version": 0}});
+            None
+        }
+        Err(p) => return json!({"r":"panic","msg":panic_text(&p),"loc":last_panic_location(),"at":"Reader::new"}),
+    };
+    let mut items: Vec<Value> = Vec::new();
+    let mut end = json!({"r":"nohdr","e":out["hdr"]["err"],"w":[],"io":out["hdr"]["io"]});
+    if let Some(r) = reader.as_mut() {
+        loop {
+            if items.len() > bytes.len() + 8 {
+                // every chunk takes at least one byte of the file
+                return json!({"r":"hang","at":"read_chunk returns more chunks than the file has bytes"});
+            }
+            let mut w: Vec<libtw2_demo::Warning> = Vec::new();
+            let res = catch_unwind(AssertUnwindSafe(|| {
+                r.read_chunk(&mut w).map(|c| {
+                    c.map(|c| match c {
+                        RawChunk::Tick { tick, keyframe } => json!({"k":"tick","t":tick,"kf":keyframe,"data":[]}),
+                        RawChunk::Snapshot(d) => json!({"k":"snapshot","t":0,"kf":false,"data":&d[..]}),
+                        RawChunk::SnapshotDelta(d) => json!({"k":"delta","t":0,"kf":false,"data":&d[..]}),
+                        RawChunk::Message(d) => json!({"k":"message","t":0,"kf":false,"data":d}),
+                        RawChunk::Unknown => json!({"k":"unknown","t":0,"kf":false,"data":[]}),
+                    })
+                })
+            }));
+            match res {
+                Ok(Ok(Some(mut c))) => {
+                    c["w"] = json!(warn_names(&w));
+                    items.push(c);
+                }
+                Ok(Ok(None)) => {
+                    end = json!({"r":"end","e":"none","w":warn_names(&w),"io":false});
+                    break;
+                }
+                Ok(Err(e)) => {
+                    let class = read_error_class(&e);
+                    let io = e.io_error().is_ok();
+                    end = json!({"r":"err","e":class,"w":warn_names(&w),"io":io});
+                    break;
+                }
+                Err(p) => return json!({"r":"panic","msg":panic_text(&p),"loc":last_panic_location(),"at":"read_chunk","after":items.len()}),
+            }
+        }
+    }
+    drop(reader);
+    out["items"] = json!(items);
+    out["end"] = end;
+    // the typed reader on the same bytes
+    let tf = SharedFile::new(bytes.to_vec());
+    let mut w0: Vec<libtw2_demo::ddnet::Warning> = Vec::new();
+    let typed = match catch_unwind(AssertUnwindSafe(|| DemoReader::<DDNet>::new(tf.clone(), &mut w0))) {
+        Ok(Ok(mut r)) => {
+            let mut n = 0usize;
+            loop {
+                n += 1;
+                if n > bytes.len() + 8 {
+                    break "hang";
+                }
+                let mut w: Vec<libtw2_demo::ddnet::Warning> = Vec::new();
+                match catch_unwind(AssertUnwindSafe(|| r.next_chunk(&mut w).map(|c| c.map(|c| match c {
+                    Chunk::Snapshot(it) => it.count(),
+                    _ => 0,
+                })))) {
+                    Ok(Ok(Some(_))) => {}
+                    Ok(Ok(None)) => break "ok",
+                    Ok(Err(_)) => break "err",
+                    Err(_) => break "panic",
+                }
+            }
+        }
+        Ok(Err(_)) => "err",
+        Err(_) => "panic",
+    };
+    out["typed"] = json!(typed);
+    if typed == "panic" {
+        out["typed_loc"] = json!(last_panic_location());
+    }
+    out
+}
+
+/// what the compressed bytes of a payload mean (huffman / packer crates only): (hok, raw, mok, msg, mw)
+fn payload_meaning(comp: &[u8]) -> Value {
+    let mut out: Vec<u8> = Vec::with_capacity(65536);
+    let (hok, raw) = match HUFFMAN.decompress(comp, &mut out) {
+        Ok(_) => (true, out.clone()),
+        Err(_) => (false, Vec::new()),
+    };
+    let mut mok = "ok";
+    let mut msg: Vec<u8> = Vec::new();
+    let mut mw: Vec<libtw2_packer::Warning> = Vec::new();
+    if hok {
+        let mut u = libtw2_packer::Unpacker::new(&raw);
+        while !u.is_empty() {
+            match u.read_int(&mut mw) {
+                Ok(n) => {
+                    if msg.len() + 4 > 65536 {
+                        mok = "MessageVarIntTooLong";
+                        break;
+                    }
+                    msg.extend_from_slice(&n.to_le_bytes());
+                }
+                Err(_) => {
+                    mok = "MessageVarIntUnexpectedEnd";
+                    break;
+                }
+            }
+        }
+    }
+    let mw: Vec<String> = warn_names(&mw).into_iter().map(|w| format!("Message({})", w)).collect();
+    json!({"comp": comp, "hok": hok, "raw": raw, "mok": mok, "msg": if mok == "ok" { msg } else { Vec::new() }, "mw": mw})
+}
+
+/// Writes the recording (H, cs) of DemoFile.tla with the real Writer; returns {"r":"ok","bytes":[..]}.
+/// Payloads are handed over uncompressed (what `comp` decompresses to; messages as their 4-byte groups).
+fn write_file(h: &Value, cs: &[Value], via_chunk: bool, pol: u64) -> Value {
+    let file = SharedFile::new(Vec::new());
+    let wpos = IoPos::new();
+    let sha = if h["version"].as_u64() == Some(6) {
+        let b = bytes_of(&h["sha"]);
+        let mut a = [0u8; 32];
+        a.copy_from_slice(&b[..32]);
+        Some(Sha256(a))
+    } else {
+        None
+    };
+    let crc = { let b = bytes_of(&h["crc"]); u32::from_be_bytes([b[0], b[1], b[2], b[3]]) };
+    let kind = if h["kind"] == "server" { DemoKind::Server } else { DemoKind::Client };
+    let (nv, mn, ts, map) = (bytes_of(&h["nv"]), bytes_of(&h["mn"]), bytes_of(&h["ts"]), bytes_of(&h["map"]));
+    let length = h["length"].as_i64().unwrap_or(0) as i32;
+    let w = catch_unwind(AssertUnwindSafe(|| Writer::new(Sink::new(file.clone(), pol, wpos.clone()), &nv, &mn, sha, crc, kind, length, &ts, &map)));
+    let mut writer = match w {
+        Ok(Ok(w)) => w,
+        Ok(Err(e)) => return json!({"r":"err","e":variant_name(&e),"bytes":[]}),
+        Err(p) => return json!({"r":"panic","msg":panic_text(&p),"loc":last_panic_location(),"bytes":[]}),
+    };
+    for c in cs {
+        let k = c["k"].as_str().unwrap_or("");
+        let r = if k == "tick" {
+            let (t, kf) = (c["t"].as_i64().unwrap_or(0) as i32, c["kf"].as_bool().unwrap_or(false));
+            if via_chunk {
+                catch_unwind(AssertUnwindSafe(|| writer.write_chunk(RawChunk::Tick { tick: t, keyframe: kf })))
+            } else {
+                catch_unwind(AssertUnwindSafe(|| writer.write_tick(kf, t)))
+            }
+        } else {
+            let m = payload_meaning(&bytes_of(&c["comp"]));
+            let raw = bytes_of(if k == "message" { &m["msg"] } else { &m["raw"] });
+            if via_chunk {
+                let mut av: Box<arrayvec::ArrayVec<[u8; 65536]>> = Box::new(arrayvec::ArrayVec::new());
+                if k != "message" {
+                    av.try_extend_from_slice(&raw).expect("harness: payload fits");
+                }
+                catch_unwind(AssertUnwindSafe(|| match k {
+                    "snapshot" => writer.write_chunk(RawChunk::Snapshot(&av)),
+                    "delta" => writer.write_chunk(RawChunk::SnapshotDelta(&av)),
+                    _ => writer.write_chunk(RawChunk::Message(&raw)),
+                }))
+            } else {
+                catch_unwind(AssertUnwindSafe(|| match k {
+                    "snapshot" => writer.write_snapshot(&raw),
+                    "delta" => writer.write_snapshot_delta(&raw),
+                    _ => writer.write_message(&raw),
+                }))
+            }
+        };
+        match r {
+            Ok(Ok(())) => {}
+            Ok(Err(e)) => return json!({"r":"err","e":variant_name(&e),"bytes":file.contents()}),
+            Err(p) => return json!({"r":"panic","msg":panic_text(&p),"loc":last_panic_location(),"bytes":file.contents()}),
+        }
+    }
+    drop(writer);
+    json!({"r":"ok","bytes":file.contents()})
+}
+
+/// stdin: TLC output of MC_DemoFile (lines <<"F", json>>); --out <path>: NDJSON events for DemoFileTrace;
+/// stdout: one JSON summary.
+fn cmd_files(args: &[String]) {
+    let mut outp = String::new();
+    let mut i = 0;
+    while i < args.len() {
+        if args[i] == "--out" {
+            outp = args[i + 1].clone();
+            i += 1;
+        }
+        i += 1;
+    }
+    let mut out = io::BufWriter::new(std::fs::File::create(&outp).expect("trace file"));
+    let mut tlc_tail: Vec<String> = Vec::new();
+    let (mut ncases, mut nwrites, mut nevents) = (0u64, 0u64, 0u64);
+    let mut classes: BTreeMap<String, u64> = BTreeMap::new();
+    let stdin = io::stdin();
+    for line in stdin.lock().lines() {
+        let line = match line { Ok(l) => l, Err(_) => break };
+        if !line.starts_with("<<") {
+            if !line.trim().is_empty() {
+                tlc_tail.push(line);
+                if tlc_tail.len() > 80 {
+                    tlc_tail.remove(0);
+                }
+            }
+            continue;
+        }
+        let t = match vh_common::parse_tlc_tuple(&line) { Some(t) => t, None => continue };
+        if t[0] != "F" || t.len() != 2 {
+            continue;
+        }
+        let c: Value = serde_json::from_str(&t[1]).expect("case json");
+        let bytes = bytes_of(&c["bytes"]);
+        let (pol, p) = (c["id"]["src"]["pol"].as_u64().unwrap_or(0), c["id"]["src"]["p"].as_u64().unwrap_or(0));
+        vh_common::set_case(&c["id"].to_string());
+        vh_common::arm(120_000);
+        let o = read_file(&bytes, pol, p);
+        vh_common::disarm();
+        ncases += 1;
+        nevents += 1;
+        *classes.entry(format!("v{}-{}-{}", c["id"]["v"], c["id"]["mut"]["m"].as_str().unwrap_or(""), o["end"]["e"].as_str().unwrap_or(o["r"].as_str().unwrap_or("")))).or_insert(0) += 1;
+        let _ = writeln!(out, "{}", json!({"act": {"a":"file","id":c["id"],"bytes":bytes,"src":c["id"]["src"]}, "out": o}));
+        // the recording through the real writer: both entry points, three kinds of sink
+        if c["writable"].as_bool().unwrap_or(false) && pol == 0 {
+            let cs: Vec<Value> = c["cs"].as_array().cloned().unwrap_or_default();
+            for (via, spol) in [(false, 0u64), (true, 1), (false, 4), (true, 5)] {
+                vh_common::arm(120_000);
+                let o = write_file(&c["H"], &cs, via, spol);
+                vh_common::disarm();
+                nwrites += 1;
+                nevents += 1;
+                let _ = writeln!(out, "{}", json!({"act": {"a":"write","id":c["id"],"H":c["H"],"cs":cs,"via":if via {"chunk"} else {"fn"},"src":spol}, "out": o}));
+            }
+        }
+    }
+    let _ = out.flush();
+    println!("{}", json!({"cases": ncases, "writes": nwrites, "events": nevents, "classes": classes, "tlc_tail": tlc_tail}));
+}
+
 // ------------------------------------------------------------------ run / drive
 
 fn print_events(plan: &[Value], outs: &[Value]) {
@@ -1190,7 +1670,8 @@ fn cmd_drive(level: &str, args: &[String]) {
             let sha = rng.gen_bool(0.5);
             plan.push(json!({"a":"new","nv":rng.gen_range(0..64),"mn":rng.gen_range(0..64),"ts":rng.gen_range(0..20),
                 "kind": if rng.gen_bool(0.5) {"client"} else {"server"}, "sha": sha, "map": rng.gen_range(0..2000),
-                "crc": rng.gen_range(0..i32::MAX), "length": rng.gen_range(0..i32::MAX)}));
+                "crc": rng.gen_range(0..i32::MAX), "length": rng.gen_range(0..i32::MAX),
+                "src": rng.gen_range(0..7), "mode": 3}));
             let mut t: i64 = match rng.gen_range(0..4) { 0 => 0, 1 => rng.gen_range(-1000..1000), 2 => i32::MIN as i64, _ => rng.gen_range(0..2_000_000_000) };
             let mut has = false;
             let mut id = 0;
@@ -1204,7 +1685,7 @@ fn cmd_drive(level: &str, args: &[String]) {
                     }
                     t = nt;
                     has = true;
-                    plan.push(json!({"a":"tick","t":t,"kf":rng.gen_range(0..4)==0}));
+                    plan.push(json!({"a":"tick","t":t,"kf":rng.gen_range(0..4)==0,"via":if rng.gen_bool(0.5) {"fn"} else {"chunk"}}));
                 } else {
                     let kind = ["snapshot", "delta", "message"][rng.gen_range(0..3)];
                     let csize: usize = match rng.gen_range(0..10) { 0 => 29, 1 => 30, 2 => 255, 3 => 256, 4 => rng.gen_range(1..40), 5 => rng.gen_range(200..300), 6 => rng.gen_range(1000..20000), _ => rng.gen_range(1..600) };
@@ -1213,14 +1694,15 @@ fn cmd_drive(level: &str, args: &[String]) {
                         // a message by varint width class (long ones included)
                         let widx = rng.gen_range(1..=15usize);
                         if let Some(p) = ps.get_wide(widx) {
-                            plan.push(json!({"a":"data","kind":"message","id":id,"csize":p.comp.len(),"m4":p.raw.len() % 4,"w":widx}));
+                            plan.push(json!({"a":"data","kind":"message","id":id,"csize":p.comp.len(),"m4":p.raw.len() % 4,"w":widx,
+                                "via":if rng.gen_bool(0.5) {"fn"} else {"chunk"}}));
                         }
                         continue;
                     }
                     if ps.get(kind, csize, m4).is_none() {
                         continue;
                     }
-                    plan.push(json!({"a":"data","kind":kind,"id":id,"csize":csize,"m4":m4,"w":0}));
+                    plan.push(json!({"a":"data","kind":kind,"id":id,"csize":csize,"m4":m4,"w":0,"via":if rng.gen_bool(0.5) {"fn"} else {"chunk"}}));
                 }
             }
             let outs = exec_lo(&plan, &mut ps);
@@ -1272,6 +1754,7 @@ fn cmd_drive(level: &str, args: &[String]) {
 
 fn main() {
     install_panic_hook();
+    vh_common::start_watchdog();
     let args: Vec<String> = std::env::args().collect();
     let lvl = args.get(2).cloned().unwrap_or_default();
     match args.get(1).map(|s| s.as_str()) {
@@ -1279,6 +1762,8 @@ fn main() {
         Some("graph") => cmd_graph(&lvl, &args[3..]),
         Some("run") => cmd_run(&lvl),
         Some("drive") => cmd_drive(&lvl, &args[3..]),
+        Some("lib") => cmd_lib(),
+        Some("files") => cmd_files(&args[2..]),
         _ => {
             eprintln!("usage: vh-demo classes|graph|run|drive ...");
             std::process::exit(2);
